@@ -5,6 +5,8 @@
 (*   settings  integer digest of network_to_json (element settings and connections)                           *)
 (*   sim       integer digest of the process-wide SimParams                                                   *)
 (*   occ       number of (oms, slot) pairs marked OCCUPIED by services                                        *)
+(*   omsd      integer digest of the OMS partition (element lists per OMS), 0 before it is built               *)
+(*   lib       integer digest of the equipment library (transceiver modes, SI, Span and ROADM defaults)        *)
 (*   req       per request [id, routed, propagated, blocked (reason or ""), holds (slots x OMS), labels]       *)
 (* Monitor-shaped; the clauses are the cross-cutting invariants of Gnpy.tla evaluated on what was observed.    *)
 EXTENDS GnpyBase, TLC, Json, IOUtils
@@ -31,6 +33,10 @@ Clauses(tr, k) ==
      \cup (IF \E r \in R : e.req[r].blocked \in NoPathReasons /\ e.req[r].propagated THEN {"NoPathNeverPropagated"} ELSE {})
      \cup (IF \E r \in R : e.req[r].blocked \in PreAssignReasons /\ e.req[r].holds # 0 THEN {"BlockedBeforeAssignNeverAssigned"} ELSE {})
      \cup (IF e.ev \in {"Assign", "Report"} /\ (\E r \in R : e.req[r].blocked = "" /\ e.req[r].holds = 0) THEN {"ServedHoldsSomething"} ELSE {})
+     \* the OMS partition is built once: no later stage may touch the element lists of the OMS (routes are built from them)
+     \cup (IF k > 1 /\ p.ev # "Design" /\ p.ev # "Load" /\ e.omsd # p.omsd THEN {"OmsListFrozen"} ELSE {})
+     \* the equipment library is an input of every stage
+     \cup (IF e.lib # tr.ev[1].lib THEN {"LibraryUntouched"} ELSE {})
      \cup (IF e.ev = "Report" /\ (e.nres # Len(e.req) \/ \E a, b \in R : a < b /\ e.req[a].id = e.req[b].id) THEN {"ReportedOnce"} ELSE {})
 
 Init == tid \in 1..Len(T) /\ i = 0 /\ viol = {}
